@@ -23,6 +23,7 @@ func main() {
 		vlib.Group{Name: "hyperdual-func", Gen: genHyperdualFuncs},
 		vlib.Group{Name: "dual-compose", Gen: genDualCompose},
 		vlib.Group{Name: "hyperdual-compose", Gen: genHyperdualCompose},
+		vlib.Group{Name: "binary-patterns", Gen: genBinaryPatterns},
 		vlib.Group{Name: "quat-func", Gen: genQuatFuncs},
 		vlib.Group{Name: "quat-ladder", Gen: genQuatLadder},
 		vlib.Group{Name: "dualquat-func", Gen: genDualquatFuncs},
